@@ -5,6 +5,7 @@ import (
 	"context"
 	"errors"
 	"fmt"
+	"google.golang.org/protobuf/reflect/protoreflect"
 	"net/http"
 	"net/http/httptest"
 	"regexp"
@@ -34,6 +35,7 @@ func safely(f func()) (panicked any) {
 // C18 — small wire codecs.
 func C18(r *h.Run) {
 	r.Model("c18case", "c18_ok")
+	c18FallbackMessages(r)
 	r.Sum.Rule = "codes: 0..299, every 2^k-1/2^k/2^k+1, decimal digit-count boundaries, random (thorough: all 2^32 through the Go oracle); " +
 		"code text: names, single-character edits of names, code_<numeric variants>, random bytes; percent codec: all 1-byte strings and all 2-byte strings (oracle), " +
 		"a model sample of the pairs, malformed escapes, random long strings; binary headers: all strings of length <= 2 (oracle), 4-symbol strings over a 10-symbol alphabet incl '=', CR/LF, padded forms; " +
@@ -445,3 +447,87 @@ func C18(r *h.Run) {
 }
 
 func isUpperHex(c byte) bool { return (c >= '0' && c <= '9') || (c >= 'A' && c <= 'F') }
+
+// badDetail is an error detail that cannot be turned into an Any (its proto3 string field is
+// not valid UTF-8): the gRPC handler then reports "internal" with a message of its own making,
+// which quotes the detail's text.
+type badDetail struct{ *wrapperspb.StringValue }
+
+func (d badDetail) MessageName() protoreflect.FullName {
+	return d.ProtoReflect().Descriptor().FullName()
+}
+func (d badDetail) UnmarshalTo(proto.Message) error { return errors.New("not needed") }
+
+// c18FallbackMessages: whatever message the handler decides to send — the application's, or one
+// of the library's own fallbacks — the grpc-message on the wire is printable ASCII and
+// percent-decodes to that message.
+func c18FallbackMessages(r *h.Run) {
+	marks := "caf\u00e9 100%41 done"
+	for _, proto_ := range []string{"grpc", "grpcweb"} {
+		for _, kind := range []string{"unary", "server"} {
+			retErr := connect.NewError(connect.CodeNotFound, errors.New("no such thing"))
+			retErr.AddDetail(badDetail{&wrapperspb.StringValue{Value: marks + " \xff"}})
+			cfg := envCfg{Proto: proto_}
+			var handler *connect.Handler
+			if kind == "unary" {
+				handler = connect.NewUnaryHandler("/verif.Svc/M", func(context.Context, *connect.Request[h.Raw]) (*connect.Response[h.Raw], error) {
+					return nil, retErr
+				}, connect.WithCodec(h.ToyCodec{}))
+			} else {
+				handler = connect.NewServerStreamHandler("/verif.Svc/M", func(_ context.Context, _ *connect.Request[h.Raw], s *connect.ServerStream[h.Raw]) error {
+					_ = s.Send(&h.Raw{B: []byte("m")})
+					return retErr
+				}, connect.WithCodec(h.ToyCodec{}))
+			}
+			req := httptest.NewRequest(http.MethodPost, "/verif.Svc/M", bytes.NewReader(h.Frame(0, []byte("q"))))
+			req.ProtoMajor, req.ProtoMinor = 2, 0
+			req.Header.Set("Content-Type", cfg.contentType(false))
+			rec := httptest.NewRecorder()
+			p := safely(func() { handler.ServeHTTP(rec, req) })
+			in := map[string]any{"proto": proto_, "kind": kind, "handler_error": "not_found with a detail that cannot be converted to an Any (invalid UTF-8 in its string field); its text holds a non-ASCII rune and '%41'"}
+			r.Eval("grpc_fallback_message", fmt.Sprint(proto_, kind))
+			if p != nil {
+				r.Fail(h.Failure{Key: "percent/panic", Family: "grpc_fallback_message", What: fmt.Sprint("panic: ", p), Input: in})
+				continue
+			}
+			// the raw grpc-message as written
+			raw, found := "", false
+			for _, k := range []string{http.TrailerPrefix + "Grpc-Message", "Grpc-Message"} {
+				if vs, ok := rec.Header()[k]; ok && len(vs) > 0 {
+					raw, found = vs[0], true
+				}
+			}
+			if !found {
+				body := rec.Body.Bytes()
+				for len(body) >= 5 {
+					n := int(uint32(body[1])<<24 | uint32(body[2])<<16 | uint32(body[3])<<8 | uint32(body[4]))
+					if 5+n > len(body) {
+						break
+					}
+					if body[0]&0x80 != 0 {
+						for _, line := range strings.Split(string(body[5:5+n]), "\r\n") {
+							if kv := strings.SplitN(line, ": ", 2); len(kv) == 2 && strings.EqualFold(kv[0], "grpc-message") {
+								raw, found = kv[1], true
+							}
+						}
+					}
+					body = body[5+n:]
+				}
+			}
+			r.Sample("grpc_fallback_message", map[string]any{"in": in, "grpc_message_on_the_wire": raw})
+			if !found {
+				r.Fail(h.Failure{Key: "percent/no-message", Family: "grpc_fallback_message", What: "no grpc-message found in the response", Input: in})
+				continue
+			}
+			for i := 0; i < len(raw); i++ {
+				if c := raw[i]; c < ' ' || c > '~' {
+					r.Fail(h.Failure{Key: "percent/roundtrip", Family: "grpc_fallback_message", What: fmt.Sprintf("the grpc-message on the wire contains the non-printable byte %#02x", c), Input: in, Actual: h.Hex([]byte(raw))})
+					break
+				}
+			}
+			if dec := connect.VerifGRPCPercentDecode(raw); !strings.Contains(dec, "caf\u00e9 100%41 done") {
+				r.Fail(h.Failure{Key: "percent/roundtrip", Family: "grpc_fallback_message", What: "the grpc-message on the wire does not decode to the message the handler sent (it quotes the detail's text)", Input: in, Expected: "... caf\u00e9 100%41 done ...", Actual: dec})
+			}
+		}
+	}
+}
